@@ -186,7 +186,7 @@ Proof. intros H HPQ. induction H; constructor; auto. Qed.
    true, in scan order, each column the value of the expanded field -- projection node, row mode,
    completed runs.  MISSING: that Parser.Parse / Check / the folder / the scan chooser, run on
    expand_stmt x, arrive at trees with these values (commutation of the front end with the
-   expansion; compared on every run by the correspondence, Corr/C05Text.v code 3), the other plan
+   expansion; compared on every run by the correspondence, Corr/C05Text.v code 7), the other plan
    nodes, batch mode and failing runs at text level (at plan level: Properties/C05.v
    alias_is_abbreviation_rows, cache_invisible_statement_*, Properties/C03.v). *)
 Theorem alias_text_is_expansion_partial q d pl out :
